@@ -64,7 +64,7 @@ fn file_with_start(start: &[u8]) -> Vec<u8> {
 
 pub fn run() {
 	let cx = ctx();
-	cx.note("rule", json!("name tag (16 bytes), display name (31), connect code (10) of a 3.16 Game Start, for an occupied and an unoccupied port: ALL 256 single bytes and ALL 65,536 two-byte sequences at the field start (followed by NUL) and straddling the field end (second byte belongs to the neighbouring field); a valid prefix with NUL at EVERY position followed by garbage {0x01, 0x80, 0xFF, a valid lead byte, a full invalid run}; fields without NUL. Oracle: field == strict Shift-JIS decode (no replacement) of the bytes before the first NUL inside the field; invalid => read is Err (for an unoccupied port Err or ignored); no U+FFFD ever. Normalisation: ALL 1,112,064 Unicode scalar values as one-character strings and all pairs from a 64-character edge set: U+FF01..U+FF5E -> c-0xFEE0, U+3000 -> ' ', U+2019 -> ', U+201D -> \", everything else unchanged, idempotent. Every case non-trivial; distinct by construction"));
+	cx.note("rule", json!("name tag (16 bytes), display name (31), connect code (10) of a 3.16 Game Start, for an occupied and an unoccupied port: ALL 256 single bytes and ALL 65,536 two-byte sequences at the field start (followed by NUL) and straddling the field end (second byte belongs to the neighbouring field); a valid prefix with NUL at EVERY position followed by garbage {0x01, 0x80, 0xFF, a valid lead byte, a full invalid run}; fields without NUL; longer texts from units of different expansion (ASCII, half-width katakana 0xB1/0xDF, two-byte kana, full-width space): ALL sequences of up to 4 units and every run of an expanding unit at every offset and every length that fits the field. Oracle: field == strict Shift-JIS decode (no replacement) of the bytes before the first NUL inside the field; invalid => read is Err (for an unoccupied port Err or ignored); no U+FFFD ever. Normalisation: ALL 1,112,064 Unicode scalar values as one-character strings and all pairs from a 64-character edge set: U+FF01..U+FF5E -> c-0xFEE0, U+3000 -> ' ', U+2019 -> ', U+201D -> \", everything else unchanged, idempotent. Every case non-trivial; distinct by construction"));
 	cx.note("exhaustive", json!(true));
 	cx.note("assumptions", json!(["encoding_rs's Shift-JIS table is the reference for what a valid sequence decodes to (trusted base); the check is about slicing at the NUL and strictness"]));
 	let ports = vec![PortCfg { port: 0, ics: false, ptype: 0 }, PortCfg { port: 1, ics: false, ptype: 1 }, PortCfg { port: 3, ics: false, ptype: 2 }];
@@ -87,7 +87,7 @@ pub fn run() {
 		let (foff, flen) = fields[fi];
 		let fo = foff + port * flen;
 		let class: &'static str = ["name-tag", "display-name", "connect-code"][fi];
-		let mut run = |blk: Vec<u8>, label: String, local: &mut Local| {
+		let run = |blk: Vec<u8>, label: String, local: &mut Local| {
 			let bytes = Arc::new(file_with_start(&blk));
 			let p = P { skip: true, class, ..Default::default() };
 			eval_case("start_end", o_start_end, &bytes, &p, || label, local);
@@ -136,6 +136,58 @@ pub fn run() {
 			}
 		}
 	}
+	// longer texts: units of different expansion (1 byte -> 1 or 3 UTF-8 bytes, 2 bytes -> 3): ALL sequences of up
+	// to 4 units, and every run of an expanding unit at every offset and of every length that fits the field
+	// (after filler units of each kind), NUL-terminated when there is room
+	let units: Vec<Vec<u8>> = vec![vec![0x41], vec![0xB1], vec![0xDF], vec![0x82, 0xA0], vec![0x81, 0x40]];
+	for (fi, (foff, flen)) in fields.iter().enumerate() {
+		let class = ["name-tag", "display-name", "connect-code"][fi];
+		let mut texts: Vec<Vec<u8>> = vec![];
+		let mut level: Vec<Vec<u8>> = vec![vec![]];
+		for _ in 0..4 {
+			let mut next = vec![];
+			for t in &level {
+				for u in &units {
+					let mut x = t.clone();
+					x.extend_from_slice(u);
+					if x.len() <= *flen {
+						next.push(x);
+					}
+				}
+			}
+			texts.extend(next.iter().cloned());
+			level = next;
+		}
+		for f in &units {
+			for x in &units[1..4] {
+				for o in 0..=*flen {
+					for k in 1..=*flen {
+						if o * f.len() + k * x.len() > *flen {
+							break;
+						}
+						let mut t = vec![];
+						for _ in 0..o {
+							t.extend_from_slice(f);
+						}
+						for _ in 0..k {
+							t.extend_from_slice(x);
+						}
+						texts.push(t);
+					}
+				}
+			}
+		}
+		for port in [0usize, 3] {
+			let fo = foff + port * flen;
+			for t in &texts {
+				let mut blk = (*base).clone();
+				for k in 0..*flen {
+					blk[fo + k] = if k < t.len() { t[k] } else { 0 };
+				}
+				jobs.push((blk, format!("field {} port {} text {:02x?}", fi, port, t), class));
+			}
+		}
+	}
 	par_each(jobs.into_iter(), |(blk, label, class), local| {
 		let bytes = Arc::new(file_with_start(&blk));
 		for skip in [true, false] {
@@ -157,11 +209,11 @@ pub fn run() {
 				let mapped = norm_ref(c) != c;
 				local.outcomes.insert(fnv_mix(21, mapped as u64));
 				local.states.insert(fnv_mix(21, mapped as u64));
-				if check_norm(&s).is_err() {
+				if let Err((_, first)) = check_norm(&s) {
 					let p = P { class: "scalar", s: Some(Arc::from(s.as_str())), ..Default::default() };
 					let empty = Arc::new(vec![]);
 					local.evaluations -= 1;
-					eval_case("normalize", o_normalize, &empty, &p, || format!("U+{:04X}", c as u32), local);
+					eval_flagged("normalize", o_normalize, &empty, &p, || format!("U+{:04X}", c as u32), first, local);
 				}
 			}
 		}
